@@ -132,7 +132,8 @@ class IdealNet(torch.nn.Module):
                 gx = (torch.arange(gw, dtype=torch.float64) * ps)[None, :].expand(gh, gw)
                 gy = (torch.arange(gh, dtype=torch.float64) * ps)[:, None].expand(gh, gw)
                 pf = torch.zeros((2 * len(self.edges), gh, gw), dtype=torch.float32)
-                half = 0.75 * ps + 1.0
+                # band wide enough to contain lines drawn between peaks quantised to the confidence-map grid
+                half = 0.75 * ps + 1.0 + 0.75 * s
                 for a_in in animals:
                     for e, (sn, dn) in enumerate(self.edges):
                         p0, p1 = a_in[sn], a_in[dn]
